@@ -105,6 +105,7 @@ Proof.
   - destruct (memN m (c_mods c)); inv_some;
       simpl; repeat split; auto; intros; try (apply upd_other; assumption).
   - inv_some. simpl. repeat split; auto; intros; try (apply upd_other; assumption).
+  - inv_some. simpl. repeat split; auto; intros; try (apply upd_other; assumption).
 Qed.
 
 Lemma ns_after_snoc order t g :
@@ -203,6 +204,9 @@ Proof.
         (split; [|repeat split; assumption]);
         intros u; (destruct (N.eq_dec u t) as [->|Hne]; [|apply Hothers; exact Hne]);
         simpl; rewrite upd_same; apply PhQuiet; [exact Hr|constructor; [exact I|exact Hr]].
+    + inv_some. split; [|repeat split; assumption].
+      intros u. destruct (N.eq_dec u t) as [->|Hne]; [|apply Hothers; exact Hne].
+      simpl. rewrite upd_same. apply PhQuiet. exact Hr.
     + inv_some. split; [|repeat split; assumption].
       intros u. destruct (N.eq_dec u t) as [->|Hne]; [|apply Hothers; exact Hne].
       simpl. rewrite upd_same. apply PhQuiet. exact Hr.
